@@ -5,6 +5,8 @@ CONSTANTS
   MaxFaults = 2
   Batches = 1
   Mutants = {"none"}
+  MutMaxN = 4
+  MutShapes = {"scatter", "gather"}
 INIT Init
 NEXT Next
 INVARIANT TypeOK
